@@ -6,4 +6,4 @@ Extraction "c19_model.ml" extract_anchor
   found_hosts out_text read_host_cache read_host_cache_asfound check_etc_hosts is_ip utf8 short_name
   hw_run records tail_of
   onhostlist onhostlist_asfound client_run valid_name valid_ip
-  helper_line helper_run hosts_line hosts_lines.
+  helper_line helper_stdin helper_reads helper_run hosts_line hosts_lines.
